@@ -147,6 +147,38 @@ def _union_culprit(T, x, sac):
     return False
 
 
+def _union_earlier_member_raises(T, x, sac):
+    """Same defect model, other symptom: x conforms to a later member of a union, an earlier member
+    is tried first because x is *coercible* to it, and that attempt raises something other than the
+    TypeError coerce_union catches (e.g. File("abc") -> FileNotFoundError for File | str)."""
+    k = T[0]
+    if k in ("Union", "Optional"):
+        members = T[1] if k == "Union" else [T[1], ["None"]]
+        for i, m in enumerate(members):
+            if R.conforms(x, m):
+                return _union_earlier_member_raises(m, x, sac)
+            try:
+                _parser(m, sac)(x)
+            except TypeError:
+                continue
+            except Exception:  # noqa: BLE001
+                return any(R.conforms(x, mj) for mj in members[i + 1:])
+            return False
+        return False
+    if k in ("list", "Multi", "tuplevar", "set", "frozenset", "Sequence"):
+        try:
+            els = list(x)
+        except TypeError:
+            return False
+        return any(_union_earlier_member_raises(T[1], e, sac) for e in els)
+    if k == "tuple" and isinstance(x, tuple) and len(x) == len(T[1]):
+        return any(_union_earlier_member_raises(m, e, sac) for e, m in zip(x, T[1]))
+    if k in ("dict", "Mapping") and hasattr(x, "items"):
+        return any(_union_earlier_member_raises(t, e, sac)
+                   for a, b in x.items() for t, e in ((T[1], a), (T[2], b)))
+    return False
+
+
 def _nonconforming_signature(r, T):
     path, got, want = R.why_not(r, T)
     return f"accepted-nonconforming:{want[0]}<-{got.split(':', 1)[0]}", path, got
@@ -170,6 +202,11 @@ def _value_laws(T, v, r, sac, where):
     try:
         r2 = _parser(T, sac)(r)
     except Exception as e:  # noqa: BLE001
+        if not isinstance(e, TypeError) and _union_earlier_member_raises(T, r, sac):
+            recs.append(dict(signature="non-idempotent:union-takes-first-coercible-member",
+                             observed=f"{where}: {r!r:.100} then {short(e, 160)}",
+                             expected="coercing the stored value again leaves it unchanged"))
+            return recs
         recs.append(dict(signature=f"non-idempotent:own-output-rejected:{T[0]}",
                          observed=f"{where}: {r!r:.100} then {short(e, 160)}",
                          expected="coercing the stored value again leaves it unchanged"))
